@@ -65,6 +65,8 @@ def check_pair(case):
     try:
         got = list(A.occurrences_in(B))
     except Exception as exc:
+        if not engine.is_lib_exception(exc):
+            raise
         return BAD("raises", {"exc": repr(exc)})
     # semantic soundness first: it does not depend on my region arithmetic
     for o in got:
@@ -97,6 +99,8 @@ def check_sub(case):
     try:
         sub = B.sub_mesh_pattern(iter(S))
     except Exception as exc:
+        if not engine.is_lib_exception(exc):
+            raise
         return BAD("sub_raises", {"exc": repr(exc)})
     q, qsh = tuple(sub.pattern), frozenset(sub.shading)
     if q != ref.subperm(b, S):
@@ -144,7 +148,30 @@ def check_regions(case):
     return OK(r > l and up > lo and n >= 2, "region")
 
 
-CHECKS = {"pair": check_pair, "sub": check_sub, "regions": check_regions}
+def check_multi(case):
+    """var-args forms: contains(*patts) = all occur, avoids(*patts) = none occurs"""
+    b, bsh = _mesh(case["B"])
+    B = _lib(case["B"])
+    As = [_mesh(a) for a in case["As"]]
+    LA = [_lib(a) for a in case["As"]]
+    flags = [ref.mesh_in_mesh(a, ash, b, bsh) for a, ash in As]
+    if B.contains(*LA) != all(flags):
+        return BAD("contains_varargs", {"flags": flags, "got": B.contains(*LA)})
+    if B.avoids(*LA) != (not any(flags)):
+        return BAD("avoids_varargs", {"flags": flags, "got": B.avoids(*LA)})
+    for A, f in zip(LA, flags):
+        if A.contained_in(B, B) != f or A.avoided_by(B, B) == f:
+            return BAD("contained_in_varargs", {"flag": f})
+    # soundness of a positive multi-claim: every permutation containing B contains every A
+    if LA and B.contains(*LA):
+        for a, ash in As:
+            for t in ref.perms_upto(len(b) + 1, len(b)):
+                if ref.mesh_contains(t, b, bsh) and not ref.mesh_contains(t, a, ash):
+                    return BAD("contains_varargs_unsound", {"perm": list(t), "pattern": [list(a), sorted(ash)]})
+    return OK(len(flags) >= 2 and any(flags) and not all(flags), "multi")
+
+
+CHECKS = {"pair": check_pair, "sub": check_sub, "regions": check_regions, "multi": check_multi}
 
 
 # ------------------------------------------------------------------ generators
@@ -228,7 +255,18 @@ def shard_exhaustive(acc, shard, nshards, full_b2):
         i += 1
 
 
+@st.composite
+def multi_cases(draw, max_a, max_b):
+    first = draw(pair_cases(max_a, max_b))
+    As = [first["A"]]
+    for _ in range(draw(st.integers(0, 2))):
+        nxt = draw(pair_cases(max_a, max_b))
+        As.append(nxt["A"] if len(nxt["A"][0]) <= len(first["B"][0]) else draw(gen.mesh_patterns(0, 1)))
+    return {"B": first["B"], "As": As}
+
+
 def shard_generated(acc, shard, nshards, n_pair, n_sub, n_reg, max_a, max_b):
+    engine.hyp_run(acc, "multi", check_multi, multi_cases(max_a, max_b), max(20, n_pair // 3), shard)
     engine.hyp_run(acc, "pair", check_pair, pair_cases(max_a, max_b), n_pair, shard)
     engine.hyp_run(acc, "sub", check_sub, sub_cases(max_b), n_sub, shard)
     engine.hyp_run(acc, "regions", check_regions, region_cases(), n_reg, shard)
